@@ -939,6 +939,26 @@ const VIOLATIONS: &[(&str, &str, char, &str, &str)] = &[
     ("array-initialiser-too-many", "", 's', "int a[2] = { 1, 2, 3 };", "int a[3] = { 1, 2, 3 };"),
     ("array-initialiser-too-few", "", 's', "int a[3] = { 1, 2 };", "int a[2] = { 1, 2 };"),
     ("struct-initialiser-too-many", "", 's', "ZT t = { zmk(), 1.0, 2.0 };", "ZT t = { zmk(), 1.0 };"),
+    // parts of a value that is not an lvalue
+    ("rvalue-element-of-call", "ZS n = zmk();", 'e', "zmk().arr[0] = 3", "n.arr[0] = 3"),
+    ("rvalue-component-of-call", "ZS n = zmk();", 'e', "zmk().v.x = 3", "n.v.x = 3"),
+    ("rvalue-subscript-of-call", "ZS n = zmk();", 'e', "zmk().v[1] = 3", "n.v[1] = 3"),
+    ("rvalue-element-of-sum", "float2 v = float2(1, 2);", 'e', "(v + v)[0] = 3", "v[0] = 3"),
+    ("rvalue-component-increment", "ZS n = zmk();", 'e', "zmk().m++", "n.m++"),
+    ("out-element-of-call", "ZS n = zmk();", 'e', "zo(zmk().arr[1])", "zo(n.arr[1])"),
+    // whole arrays
+    ("const-array-assign", "const int c[2] = { 1, 2 }; int n[2] = { 1, 2 }; int o[2] = { 3, 4 };", 'e', "c = o", "n = o"),
+    ("const-global-array-assign", "int n[2] = { 1, 2 };", 'e', "zks.arr = n", "n = zks.arr"),
+    // increment and decrement of what has no arithmetic
+    ("struct-increment", "ZS s = zmk();", 'e', "s++", "s.m++"),
+    ("struct-predecrement", "ZS s = zmk();", 'e', "--s", "--s.m"),
+    ("array-increment", "int a[2] = { 1, 2 };", 'e', "a++", "a[0]++"),
+    ("enum-increment", "ZE e = ZB; int i = 1;", 'e', "e++", "i++"),
+    ("enum-compound", "ZE e = ZB; int i = 1;", 'e', "e += 1", "i += 1"),
+    // labels
+    ("case-float", "int i = 1;", 's', "switch (i) { case 1.5: break; default: break; }", "switch (i) { case 1: break; default: break; }"),
+    ("case-not-constant", "int i = 1; int j = 2;", 's', "switch (i) { case j: break; default: break; }", "switch (i) { case 2: break; default: break; }"),
+    ("case-struct", "int i = 1; ZS s = zmk();", 's', "switch (i) { case s: break; default: break; }", "switch (i) { case 3: break; default: break; }"),
 ];
 
 /// expression contexts: the expression under test replaces `@`; each context only needs `@` to be
